@@ -20,7 +20,7 @@ TEXT = {
  "C19": ("the crate is built with no features / alloc / std and a deterministic no-alloc workload, an alloc-level one, and a replay of 3000 zones + queries written by the harness' own generators (tie rules, IANA rules, leap tables, every table shape) are run against each build; digests must be identical", "differential; each build's results are pinned to oracles by the other checks on the std build"),
  "C08": ("differential decoding: an independent RFC 8536 writer and decoder (Must / MustFail / Unspec) against from_tz_data on generated v1/v2/v3 files, all 894 distinct vendored tzdata files and every single-field corruption of the named kinds", "trusts M-tzif (writer and decoder are checked against each other on every generated file; disagreement = inconclusive)"),
  "C09": ("recursive-descent recogniser + denotation written from the grammar against three entry points (settings, v2 footer, v3 footer): grammar cross product, every single-character edit of sentences, thorough: all strings of length <= 6 over a 14-letter alphabet", "trusts M-posix; strings with >3-digit numbers, whitespace or non-ASCII next to a name are left unspecified"),
- "C20": ("tzset(3) resolution model over a virtual file system with a recording reader: exact sequence of paths requested and result class, exhaustively over 44 value shapes x 9 directory lists x all file assignments", "trusts M-resolve; the real file system is not involved in this check"),
+ "C20": ("tzset(3) resolution model over a virtual file system with a recording reader: exact sequence of paths requested and result class, exhaustively over 56 value shapes x 9 directory lists x all file assignments", "trusts M-resolve; the real file system is not involved in this check"),
  "C10": ("record-and-replay differential: tz-rs' answers for every transition -1/0/+1, random and far-future instants and local times around every transition since 1970 are logged and replayed offline against CPython zoneinfo and glibc reading the same vendored files (quick: 60+ files, thorough: all 1243 paths), plus TZ descriptions against glibc's parser", "trusts zoneinfo and glibc 2.36 as oracles, with the exclusions listed in the evidence assumptions"),
  "C11": ("brute-force 400-year definition against the constructor on all 1 324 801 day-notation pairs x breakpoints of d (thorough: all 105 breakpoints, each realised twice), error variant = first violated condition", "trusts M-rule day tables (closed form validated against walking the month over the cycle)"),
  "C12": ("probe zones pin the hidden UTC<->leap-count conversions: forward switch instant, instant reported by the search, their agreement, monotonicity; tables of both signs incl. the real 27-record one", "trusts M-leap (f defined as max{L: g(L)<=u}, brute-force validated)"),
